@@ -22,6 +22,12 @@ def driver():
     return vlib.ocaml_driver('map', MODEL_VO)
 
 
+def harness_mtz():
+    """MTZ reader under ASan+UBSan on structure-aware corruptions of valid files (no model: outcome class only)."""
+    return vlib.build_exe('h_mtzfuzz', [vlib.ROOT + '/harness/h_mtzfuzz.cpp'] +
+                          vlib.repo_src('mtz.cpp', 'symmetry.cpp', 'sprintf.cpp', 'gz.cpp'))
+
+
 def rows_info(h):
     """Per table row: grid factors + related directions (from the implementation), ccp4 number usable in a file."""
     rows = S.table_strings()
@@ -79,6 +85,12 @@ def pick_rows(rng, info, k, storable=False):
 def harness_ub():
     """The same harness without ASan (UBSan only) and with RLIMIT_AS 2 GiB: absurd allocations throw bad_alloc."""
     return vlib.build_exe('h_map_ub', [vlib.ROOT + '/harness/h_map.cpp'] + vlib.repo_src('symmetry.cpp', 'gz.cpp'),
+                          flags=['-O1', '-g', '-fsanitize=undefined', '-fno-sanitize-recover=all'])
+
+
+def harness_mtz_ub():
+    return vlib.build_exe('h_mtzfuzz_ub', [vlib.ROOT + '/harness/h_mtzfuzz.cpp'] +
+                          vlib.repo_src('mtz.cpp', 'symmetry.cpp', 'sprintf.cpp', 'gz.cpp'),
                           flags=['-O1', '-g', '-fsanitize=undefined', '-fno-sanitize-recover=all'])
 
 
